@@ -52,6 +52,8 @@ impl Multiclass {
     }
 
     pub fn add_record_name(&mut self, name: EcoString, is_whole_name: bool) {
+        #[cfg(feature = "verif")]
+        crate::verif::walk_step();
         self.record_name_list.push((name, is_whole_name));
     }
 }
